@@ -100,6 +100,12 @@ func (ex *Exec) havocComp(st *State, name string) {
 	for _, im := range ex.immutable[name] {
 		ex.pendingAssume = append(ex.pendingAssume, Eq(Select(v, im), Select(old, im)))
 	}
+	if !ex.loopHavoc {
+		// a callee cannot reach a local cell whose address never left this function
+		for _, lc := range ex.localCells[name] {
+			ex.pendingAssume = append(ex.pendingAssume, Eq(Select(v, lc), Select(old, lc)))
+		}
+	}
 }
 
 type fieldInfo struct {
@@ -161,7 +167,9 @@ func fieldPtr(owner types.Type, i int, base *Term) *Term {
 	}
 	name := sanitize(fmt.Sprintf("fld$%s$%d", typeKey(owner), i))
 	fldTab[name] = fieldInfo{owner, i}
-	return App(name, SRef, base)
+	r := App(name, SRef, base)
+	r.AddFact(Neq(r, Null))
+	return r
 }
 
 func elemPtr(et types.Type, arr, idx *Term) *Term {
@@ -170,7 +178,9 @@ func elemPtr(et types.Type, arr, idx *Term) *Term {
 	}
 	name := sanitize("elem$" + storageKey(et))
 	elemTab[name] = et
-	return App(name, SRef, arr, idx)
+	r := App(name, SRef, arr, idx)
+	r.AddFact(Neq(r, Null))
+	return r
 }
 
 func fieldComp(owner types.Type, i int, l leaf) (string, string) {
